@@ -148,16 +148,35 @@ func (c *Ctx) Lines(fn func(raw []byte) error) error {
 	defer f.Close()
 	sc := bufio.NewScanner(f)
 	sc.Buffer(make([]byte, 1<<20), 1<<28)
+	// revpass=1: after the pass in emitted order the same cases are judged once more in REVERSE order. Every case carries
+	// the specification's expectation, so the verdicts must not depend on the order: a result that depends on what was
+	// computed before (package-level buffers, caches, reused objects) shows up in one of the two orders.
+	rev := c.Opt("revpass", "") == "1"
+	var kept [][]byte
 	for sc.Scan() {
 		b := sc.Bytes()
 		if len(b) == 0 {
 			continue
 		}
+		if rev {
+			kept = append(kept, append([]byte(nil), b...))
+		}
 		if err := fn(b); err != nil {
 			return err
 		}
 	}
-	return sc.Err()
+	if err := sc.Err(); err != nil {
+		return err
+	}
+	for i := len(kept) - 1; i >= 0; i-- {
+		if err := fn(kept[i]); err != nil {
+			return err
+		}
+	}
+	if rev {
+		c.Set("reverse_order_pass_cases", len(kept))
+	}
+	return nil
 }
 
 // Case counts one case taken from the model; key identifies it for the distinct count
@@ -250,4 +269,28 @@ func Guard(fn func()) (panicked string) {
 	}()
 	fn()
 	return ""
+}
+
+// Pairwise executes every ordered pair (j, then k) of n items through run and reports when the result obtained for k
+// after j differs from want[k] (the specification's value for k alone): a pure function's result may not depend on the
+// call that preceded it. run(i) performs item i and returns its observable result as a string.
+func Pairwise(c *Ctx, site string, n int, run func(i int) string, want func(i int) string, describe func(i int) interface{}) {
+	for j := 0; j < n; j++ {
+		for k := 0; k < n; k++ {
+			run(j)
+			got := run(k)
+			c.Exec(2)
+			if w := want(k); got != w {
+				c.Fail(site, "history-dependent", fmt.Sprintf("result for an input depends on the previous call: after %v, %v gave %s, specification %s", describe(j), describe(k), trunc(got), trunc(w)),
+					map[string]interface{}{"previous": describe(j), "input": describe(k)})
+			}
+		}
+	}
+}
+
+func trunc(s string) string {
+	if len(s) > 96 {
+		return s[:96] + "..."
+	}
+	return s
 }
